@@ -415,6 +415,14 @@ class HTTP2Connection(ConnectionInterface):
             except h2.exceptions.ProtocolError:  # pragma: nocover
                 pass
 
+        # Return the flow control credit for data that was received on this
+        # stream but never read, otherwise the connection window leaks.
+        for event in self._events[stream_id]:
+            if isinstance(event, h2.events.DataReceived):
+                self._h2_state.acknowledge_received_data(
+                    event.flow_controlled_length, stream_id
+                )
+
         self._max_streams_semaphore.release()
         del self._events[stream_id]
         with self._state_lock:
